@@ -23,19 +23,23 @@ var _ io.Writer = &GatedWriter{}
 // Flush tells the GatedWriter to flush any buffered data and to stop
 // buffering.
 func (w *GatedWriter) Flush() {
+	// Hold the lock across the replay: a Write that arrives while the
+	// buffered lines are being written out must not overtake them.
 	w.lock.Lock()
-	w.flush = true
-	w.lock.Unlock()
+	defer w.lock.Unlock()
 
+	w.flush = true
 	for _, p := range w.buf {
-		w.Write(p)
+		_, _ = w.Writer.Write(p)
 	}
 	w.buf = nil
 }
 
 func (w *GatedWriter) Write(p []byte) (n int, err error) {
-	w.lock.RLock()
-	defer w.lock.RUnlock()
+	// Write appends to w.buf, so it needs the lock exclusively: under a
+	// read lock two concurrent writers could lose a line.
+	w.lock.Lock()
+	defer w.lock.Unlock()
 
 	if w.flush {
 		return w.Writer.Write(p)
